@@ -8,12 +8,15 @@ Area="$(echo "$area" | awk '{print toupper(substr($0,1,1)) substr($0,2)}')"
 ext="../coq/extract/Extract${Area}.v"
 bin="bin/${area}"
 mkdir -p bin "gen/${area}"
-if [ -x "$bin" ] && [ -z "$(find ../coq/theories "$ext" common "${area}_driver.ml" -newer "$bin" \( -name '*.vo' -o -name '*.v' -o -name '*.ml' \) 2>/dev/null | grep -v '\.v$' ; find "$ext" "${area}_driver.ml" common -newer "$bin" 2>/dev/null)" ]; then
+if [ -x "$bin" ] && [ -z "$(find ../coq/theories "$ext" common common_parse "${area}_driver.ml" -newer "$bin" \( -name '*.vo' -o -name '*.v' -o -name '*.ml' \) 2>/dev/null | grep -v '\.v$' ; find "$ext" "${area}_driver.ml" common common_parse -newer "$bin" 2>/dev/null)" ]; then
   exit 0
 fi
 rm -rf "gen/${area}"; mkdir -p "gen/${area}"
 ( cd "gen/${area}" && coqc -Q ../../../coq/theories ClapModel "../../$ext" >/dev/null && rm -f Extract*.vo Extract*.glob .Extract*.aux ../../../coq/extract/*.vo ../../../coq/extract/*.glob ../../../coq/extract/.*.aux 2>/dev/null; true )
 cp common/sx.ml common/conv.ml "${area}_driver.ml" "gen/${area}/"
+# drivers of areas whose extraction contains the command model share the spec reader / result printer
+[ -f "gen/${area}/Cmd.ml" ] && cp common_parse/spec.ml "gen/${area}/"
+[ -f "gen/${area}/Parser.ml" ] && cp common_parse/show.ml "gen/${area}/"
 cd "gen/${area}"
 rm -f *.mli
 files="$(ocamlfind ocamldep -sort *.ml)"
